@@ -425,10 +425,74 @@ func (c *Ctx) readContainer(stored ssa.Value, t *Table) {
 			t.Err = "table builder " + fnName(f) + " delegates to another call"
 			return
 		}
+		// a builder that fills the map with computed keys (loops over literal key lists): read along its
+		// single path, loops over literals unrolled
+		if mm, ok := ret.(*ssa.MakeMap); ok && c.hasComputedKeys(mm) {
+			paths, complete := c.enumPaths(f, 50)
+			var done []*Path
+			for _, p := range paths {
+				if p.Ret != nil && !p.Cut {
+					done = append(done, p)
+				} else {
+					complete = false
+				}
+			}
+			if !complete || len(done) != 1 {
+				t.Err = "table builder " + fnName(f) + " does not fill the table along a single loop-free (or literally bounded) path"
+				return
+			}
+			seen := map[string]int{}
+			for _, u := range done[0].Updates {
+				if u.Instr.Map != ssa.Value(mm) {
+					continue
+				}
+				if _, isC := u.Key.(*ssa.Const); !isC {
+					t.Err = "table builder " + fnName(f) + " stores a key that is not a constant on its path"
+					return
+				}
+				e := c.mkEntry(u.Key, u.Val, u.Instr)
+				if e.Factory != nil && len(u.ValArgs) > 0 {
+					// the factory's arguments as they were at this update
+					call := u.Val.(*ssa.Call)
+					cl := closureReturned(e.Factory)
+					e.Bound = nil
+					for _, b := range cl.Bindings {
+						bound := b
+						if p := paramBehind(b); p != nil {
+							for i, fp := range e.Factory.Params {
+								if fp == p && i < len(call.Call.Args) && i < len(u.ValArgs) {
+									bound = u.ValArgs[i]
+								}
+							}
+						}
+						e.Bound = append(e.Bound, bound)
+					}
+				}
+				if i, dup := seen[e.KeyName]; dup {
+					t.Entries[i] = e // a later store wins
+				} else {
+					seen[e.KeyName] = len(t.Entries)
+					t.Entries = append(t.Entries, e)
+				}
+			}
+			return
+		}
 		c.readContainer(ret, t)
 	default:
 		t.Err = fmt.Sprintf("unsupported table initialiser %T", stored)
 	}
+}
+
+// hasComputedKeys: some update of the map uses a key that is not a constant.
+func (c *Ctx) hasComputedKeys(mm *ssa.MakeMap) bool {
+	for _, ref := range *mm.Referrers() {
+		if mu, ok := ref.(*ssa.MapUpdate); ok && mu.Map == ssa.Value(mm) {
+			if _, isC := mu.Key.(*ssa.Const); !isC {
+				return true
+			}
+		}
+	}
+	return false
 }
 
 // isInvertFn: f(m) builds a fresh map, stores out[v] = k for every k, v of a range over m, and
